@@ -2,11 +2,14 @@
 """Source mutants for the *bridge theorems* (generated definition = hand-written model): apply one textual change to a scratch
 copy of the library, run `./check <prop> --tier quick` against it and report what the check printed.
 
-    tools/bridge_mutants.py [PROP ...] [--scratch DIR] [--build-only]
+    tools/bridge_mutants.py [PROP ...] [--scratch DIR] [--build-only] [--cross [--jobs N]]
 
 Every entry below changes the decision logic that `py2lean/elements.py` (elements) or `py2lean/kernel.py` (the kernel, list `K`:
-properties C01, C04-C07, bridge theorems in `Props/KernelGen.lean`) translates; each must end in `VIOLATION` (the bridge
-theorem no longer compiles, or the translator refuses the source).  Entries marked `harmless` change nothing a run can observe
+properties C01-C07, bridge theorems in `Props/KernelGen<owner>.lean`) translates, and names the property or properties that **own**
+the changed code (`py2lean/SCOPE.md`; first component: one id or a tuple); the check of every owner must end in `VIOLATION` (the
+bridge theorem no longer compiles, or the translator refuses the source).  `--cross` runs, for the entries marked in `CROSS` (a
+sample of 12, to keep the run time reasonable), **all 20 checks** and asserts that the owners alarm and that no other check does,
+except the ones listed there with the reason (a check whose own correspondence replays the changed behaviour).  Entries marked `harmless` change nothing a run can observe
 (`8` vs `8.0`, commuted sums, renamed locals) and must end in `OK`.  The last run of every property is against the unmodified
 library, so that `lean/OnlVerif/Generated/*.lean` is left as translated from the true source.
 `--build-only` runs just the translator and `lake build OnlVerif.Props.<prop>` (C16's closed-loop harness can take very long
@@ -38,53 +41,54 @@ CPUT = '''    def _do_put(self, event: ContainerPut) -> bool:
         else:
             return False'''
 
-# kernel (C01, C04-C07): the generated files are Kernel{Res,Cond,Sched}.lean, the bridge theorems are in Props/KernelGen.lean.
+# kernel (C01-C07): the generated files are Generated/Kernel*.lean (one per class group x owner), the bridge theorems are in Props/KernelGen<owner>.lean.
+# First component: the owning property, or a tuple when two properties' texts constrain the changed code (py2lean/SCOPE.md).
 # An optional 7th component selects the occurrence of `old` (0 = first, -1 = last).
 K = [
     # ---- C06: Resource / PriorityResource / PreemptiveResource
-    ('C06', 'KernelRes', RES, 'if len(self._users) < self.capacity:', 'if len(self._users) <= self.capacity:', 'VIOLATION'),
-    ('C06', 'KernelRes', RES, 'len(self.users) >= self.capacity and event.preempt', 'len(self.users) > self.capacity and event.preempt', 'VIOLATION'),
-    ('C06', 'KernelRes', RES, 'len(self.users) >= self.capacity and event.preempt', 'len(self.users) >= self.capacity', 'VIOLATION'),
-    ('C06', 'KernelRes', RES, 'if preempt.key > event.key:', 'if preempt.key >= event.key:', 'VIOLATION'),
-    ('C06', 'KernelRes', RES, 'if preempt.key > event.key:', 'if preempt.key < event.key:', 'VIOLATION'),
-    ('C06', 'KernelRes', RES, '(self.priority, self.time, not self.preempt)', '(self.priority, self.time)', 'VIOLATION'),
-    ('C06', 'KernelRes', RES, '(self.priority, self.time, not self.preempt)', '(self.priority, self.time, self.preempt)', 'VIOLATION'),
-    ('C06', 'KernelRes', RES, '(self.priority, self.time, not self.preempt)', '(self.time, self.priority, not self.preempt)', 'VIOLATION'),
-    ('C06', 'KernelRes', RES, '(self.priority, self.time, not self.preempt)', '(-self.priority, self.time, not self.preempt)', 'VIOLATION'),
-    ('C06', 'KernelRes', RES, '            event.usage_since = self._env.now\n', '', 'VIOLATION'),
-    ('C06', 'KernelRes', RES, '            self._users.append(event)\n            event.usage_since = self._env.now\n            event.succeed()',
+    ('C06', 'KernelRes6', RES, 'if len(self._users) < self.capacity:', 'if len(self._users) <= self.capacity:', 'VIOLATION'),
+    ('C06', 'KernelRes6', RES, 'len(self.users) >= self.capacity and event.preempt', 'len(self.users) > self.capacity and event.preempt', 'VIOLATION'),
+    ('C06', 'KernelRes6', RES, 'len(self.users) >= self.capacity and event.preempt', 'len(self.users) >= self.capacity', 'VIOLATION'),
+    ('C06', 'KernelRes6', RES, 'if preempt.key > event.key:', 'if preempt.key >= event.key:', 'VIOLATION'),
+    ('C06', 'KernelRes6', RES, 'if preempt.key > event.key:', 'if preempt.key < event.key:', 'VIOLATION'),
+    ('C06', 'KernelRes6', RES, '(self.priority, self.time, not self.preempt)', '(self.priority, self.time)', 'VIOLATION'),
+    ('C06', 'KernelRes6', RES, '(self.priority, self.time, not self.preempt)', '(self.priority, self.time, self.preempt)', 'VIOLATION'),
+    ('C06', 'KernelRes6', RES, '(self.priority, self.time, not self.preempt)', '(self.time, self.priority, not self.preempt)', 'VIOLATION'),
+    ('C06', 'KernelRes6', RES, '(self.priority, self.time, not self.preempt)', '(-self.priority, self.time, not self.preempt)', 'VIOLATION'),
+    ('C06', 'KernelRes6', RES, '            event.usage_since = self._env.now\n', '', 'VIOLATION'),
+    ('C06', 'KernelRes6', RES, '            self._users.append(event)\n            event.usage_since = self._env.now\n            event.succeed()',
      '            event.succeed()\n            self._users.append(event)\n            event.usage_since = self._env.now', 'VIOLATION'),
-    ('C06', 'KernelRes', RES, 'sorted(self.users, key=lambda e: e.key)[-1]', 'sorted(self.users, key=lambda e: e.key)[0]', 'VIOLATION'),
-    ('C06', 'KernelRes', RES, '        event.succeed()\n        return True\n\n\nclass PriorityRequest', '        event.succeed()\n        return False\n\n\nclass PriorityRequest', 'VIOLATION'),
-    ('C06', 'KernelRes', RES, 'super().sort(key=lambda e: e.key)', 'super().sort(key=lambda e: e.key, reverse=True)', 'VIOLATION'),
-    ('C06', 'KernelRes', BASE, '            if not proceed:\n                break', '            if proceed is None:\n                break', 'VIOLATION'),
-    ('C06', 'KernelRes', BASE, '            if not put_event.triggered:\n                idx += 1', '            if put_event.triggered:\n                idx += 1', 'VIOLATION'),
-    ('C06', 'KernelRes', BASE, 'self.callbacks.append(resource._trigger_get)', 'self.callbacks.append(resource._trigger_put)', 'VIOLATION'),
-    ('C06', 'KernelRes', RES, 'if len(self._users) < self.capacity:', 'if self.capacity > len(self._users):', 'OK'),
-    ('C06', 'KernelRes', RES, PREEMPT_BODY, PREEMPT_BODY.replace('preempt', 'victim').replace('event.victim', 'event.preempt'), 'OK'),
-    ('C06', 'KernelRes', RES, '    def _do_put(self, event: Request) -> bool:\n        if len', '    def _do_put(self, event: Request) -> bool:\n        # free slot?\n        if len', 'OK'),
+    ('C06', 'KernelRes6', RES, 'sorted(self.users, key=lambda e: e.key)[-1]', 'sorted(self.users, key=lambda e: e.key)[0]', 'VIOLATION'),
+    ('C06', 'KernelRes6', RES, '        event.succeed()\n        return True\n\n\nclass PriorityRequest', '        event.succeed()\n        return False\n\n\nclass PriorityRequest', 'VIOLATION'),
+    ('C06', 'KernelRes6', RES, 'super().sort(key=lambda e: e.key)', 'super().sort(key=lambda e: e.key, reverse=True)', 'VIOLATION'),
+    (('C06', 'C07'), 'KernelCancel', BASE, '            if not proceed:\n                break', '            if proceed is None:\n                break', 'VIOLATION'),
+    (('C06', 'C07'), 'KernelCancel', BASE, '            if not put_event.triggered:\n                idx += 1', '            if put_event.triggered:\n                idx += 1', 'VIOLATION'),
+    (('C06', 'C07'), 'KernelCancel', BASE, 'self.callbacks.append(resource._trigger_get)', 'self.callbacks.append(resource._trigger_put)', 'VIOLATION'),
+    ('C06', 'KernelRes6', RES, 'if len(self._users) < self.capacity:', 'if self.capacity > len(self._users):', 'OK'),
+    ('C06', 'KernelRes6', RES, PREEMPT_BODY, PREEMPT_BODY.replace('preempt', 'victim').replace('event.victim', 'event.preempt'), 'OK'),
+    ('C06', 'KernelRes6', RES, '    def _do_put(self, event: Request) -> bool:\n        if len', '    def _do_put(self, event: Request) -> bool:\n        # free slot?\n        if len', 'OK'),
     # ---- C07: Container / Store / PriorityStore / FilterStore / cancel
-    ('C07', 'KernelRes', CONT, 'if self._capacity - self._level >= event.amount:', 'if self._capacity - self._level > event.amount:', 'VIOLATION'),
-    ('C07', 'KernelRes', CONT, 'if self._level >= event.amount:', 'if self._level > event.amount:', 'VIOLATION'),
-    ('C07', 'KernelRes', CONT, 'if amount <= 0:', 'if amount < 0:', 'VIOLATION'),
-    ('C07', 'KernelRes', CONT, 'if amount <= 0:', 'if amount < 0:', 'VIOLATION', -1),
-    ('C07', 'KernelRes', CONT, 'self._level += event.amount', 'self._level = event.amount', 'VIOLATION'),
-    ('C07', 'KernelRes', CONT, 'self._level -= event.amount', 'self._level -= 1', 'VIOLATION'),
-    ('C07', 'KernelRes', CONT, '            self._level -= event.amount\n            event.succeed()', '            self._level -= event.amount', 'VIOLATION'),
-    ('C07', 'KernelRes', STORE, 'if len(self.items) < self._capacity:', 'if len(self.items) <= self._capacity:', 'VIOLATION'),
-    ('C07', 'KernelRes', STORE, 'if len(self.items) < self._capacity:', 'if len(self.items) <= self._capacity:', 'VIOLATION', -1),
-    ('C07', 'KernelRes', STORE, 'event.succeed(self.items.pop(0))', 'event.succeed(self.items.pop())', 'VIOLATION'),
-    ('C07', 'KernelRes', STORE, 'heappush(self.items, event.item)', 'self.items.append(event.item)', 'VIOLATION'),
-    ('C07', 'KernelRes', STORE, '                break\n        return True', '                break\n        return False', 'VIOLATION'),
-    ('C07', 'KernelRes', STORE, '                event.succeed(item)\n                break', '                event.succeed(item)', 'VIOLATION'),
-    ('C07', 'KernelRes', BASE, '            # satisfiable now; do not leave them stranded.\n            self.resource._trigger_put(None)',
+    ('C07', 'KernelRes7', CONT, 'if self._capacity - self._level >= event.amount:', 'if self._capacity - self._level > event.amount:', 'VIOLATION'),
+    ('C07', 'KernelRes7', CONT, 'if self._level >= event.amount:', 'if self._level > event.amount:', 'VIOLATION'),
+    ('C07', 'KernelRes7', CONT, 'if amount <= 0:', 'if amount < 0:', 'VIOLATION'),
+    ('C07', 'KernelRes7', CONT, 'if amount <= 0:', 'if amount < 0:', 'VIOLATION', -1),
+    ('C07', 'KernelRes7', CONT, 'self._level += event.amount', 'self._level = event.amount', 'VIOLATION'),
+    ('C07', 'KernelRes7', CONT, 'self._level -= event.amount', 'self._level -= 1', 'VIOLATION'),
+    ('C07', 'KernelRes7', CONT, '            self._level -= event.amount\n            event.succeed()', '            self._level -= event.amount', 'VIOLATION'),
+    ('C07', 'KernelRes7', STORE, 'if len(self.items) < self._capacity:', 'if len(self.items) <= self._capacity:', 'VIOLATION'),
+    ('C07', 'KernelRes7', STORE, 'if len(self.items) < self._capacity:', 'if len(self.items) <= self._capacity:', 'VIOLATION', -1),
+    ('C07', 'KernelRes7', STORE, 'event.succeed(self.items.pop(0))', 'event.succeed(self.items.pop())', 'VIOLATION'),
+    ('C07', 'KernelRes7', STORE, 'heappush(self.items, event.item)', 'self.items.append(event.item)', 'VIOLATION'),
+    ('C07', 'KernelRes7', STORE, '                break\n        return True', '                break\n        return False', 'VIOLATION'),
+    ('C07', 'KernelRes7', STORE, '                event.succeed(item)\n                break', '                event.succeed(item)', 'VIOLATION'),
+    (('C06', 'C07'), 'KernelCancel', BASE, '            # satisfiable now; do not leave them stranded.\n            self.resource._trigger_put(None)',
      '            # satisfiable now; do not leave them stranded.', 'VIOLATION'),
-    ('C07', 'KernelRes', BASE, '            # satisfiable now; do not leave them stranded.\n            self.resource._trigger_get(None)',
+    (('C06', 'C07'), 'KernelCancel', BASE, '            # satisfiable now; do not leave them stranded.\n            self.resource._trigger_get(None)',
      '            # satisfiable now; do not leave them stranded.\n            self.resource._trigger_put(None)', 'VIOLATION'),
-    ('C07', 'KernelRes', BASE, '        if not self.triggered:\n            self.resource.get_queue.remove(self)', '        if self.triggered:\n            self.resource.get_queue.remove(self)', 'VIOLATION'),
-    ('C07', 'KernelRes', CONT, 'if self._level >= event.amount:', 'if event.amount <= self._level:', 'OK'),
-    ('C07', 'KernelRes', CONT, CPUT, CPUT.replace('event', 'req'), 'OK'),
-    ('C07', 'KernelRes', STORE, '    def _do_get(self, event: StoreGet) -> bool:\n        if self.items:', '    def _do_get(self, evt: StoreGet) -> bool:\n        event = evt\n        if self.items:', 'VIOLATION'),
+    (('C06', 'C07'), 'KernelCancel', BASE, '        if not self.triggered:\n            self.resource.get_queue.remove(self)', '        if self.triggered:\n            self.resource.get_queue.remove(self)', 'VIOLATION'),
+    ('C07', 'KernelRes7', CONT, 'if self._level >= event.amount:', 'if event.amount <= self._level:', 'OK'),
+    ('C07', 'KernelRes7', CONT, CPUT, CPUT.replace('event', 'req'), 'OK'),
+    ('C07', 'KernelRes7', STORE, '    def _do_get(self, event: StoreGet) -> bool:\n        if self.items:', '    def _do_get(self, evt: StoreGet) -> bool:\n        event = evt\n        if self.items:', 'VIOLATION'),
     # ---- C05: conditions
     ('C05', 'KernelCond', EVENTS, 'return len(events) == count', 'return len(events) <= count', 'VIOLATION'),
     ('C05', 'KernelCond', EVENTS, 'return count > 0 or len(events) == 0', 'return count >= 0 or len(events) == 0', 'VIOLATION'),
@@ -99,31 +103,31 @@ K = [
     ('C05', 'KernelCond', EVENTS, 'return count > 0 or len(events) == 0', 'return 0 < count or len(events) == 0', 'OK'),
     ('C05', 'KernelCond', EVENTS, 'return len(events) == count', 'return count == len(events)', 'OK'),
     # ---- C01: scheduling
-    ('C01', 'KernelSched', EVENTS, 'URGENT: EventPriority = EventPriority(0)', 'URGENT: EventPriority = EventPriority(2)', 'VIOLATION'),
-    ('C01', 'KernelSched', EVENTS, 'env.schedule(self, NORMAL, delay)', 'env.schedule(self, URGENT, delay)', 'VIOLATION'),
-    ('C01', 'KernelSched', EVENTS, 'env.schedule(self, NORMAL, delay)', 'env.schedule(self, NORMAL)', 'VIOLATION'),
-    ('C01', 'KernelSched', EVENTS, 'if delay < 0:', 'if delay <= 0:', 'VIOLATION'),
-    ('C01', 'KernelSched', CORE, '(self._now + delay, priority, next(self._eid), event)', '(self._now, priority, next(self._eid), event)', 'VIOLATION'),
-    ('C01', 'KernelSched', CORE, '(self._now + delay, priority, next(self._eid), event)', '(priority, self._now + delay, next(self._eid), event)', 'VIOLATION'),
-    ('C01', 'KernelSched', CORE, 'priority: EventPriority = NORMAL,', 'priority: EventPriority = URGENT,', 'VIOLATION'),
-    ('C01', 'KernelSched', CORE, 'if at <= self.now:', 'if at < self.now:', 'VIOLATION'),
-    ('C01', 'KernelSched', CORE, '(at, URGENT, next(self._eid), until)', '(at, NORMAL, next(self._eid), until)', 'VIOLATION'),
-    ('C01', 'KernelSched', CORE, '(at, URGENT, next(self._eid), until)', '(self._now + (at - self._now), URGENT, next(self._eid), until)', 'VIOLATION'),
-    ('C01', 'KernelSched', EVENTS, "has already been triggered')\n\n        self._ok = True", "has already been triggered')\n\n        self._ok = False", 'VIOLATION'),
-    ('C01', 'KernelSched', EVENTS, '        if self._value is not PENDING:\n            raise RuntimeError', '        if self._value is PENDING:\n            raise RuntimeError', 'VIOLATION'),
-    ('C01', 'KernelSched', EVENTS, '                self._value = e.args[0] if len(e.args) else None\n                self.env.schedule(self)',
+    ('C01', 'KernelSched01', EVENTS, 'URGENT: EventPriority = EventPriority(0)', 'URGENT: EventPriority = EventPriority(2)', 'VIOLATION'),
+    ('C01', 'KernelSched01', EVENTS, 'env.schedule(self, NORMAL, delay)', 'env.schedule(self, URGENT, delay)', 'VIOLATION'),
+    ('C01', 'KernelSched01', EVENTS, 'env.schedule(self, NORMAL, delay)', 'env.schedule(self, NORMAL)', 'VIOLATION'),
+    ('C01', 'KernelSched01', EVENTS, 'if delay < 0:', 'if delay <= 0:', 'VIOLATION'),
+    ('C01', 'KernelSched01', CORE, '(self._now + delay, priority, next(self._eid), event)', '(self._now, priority, next(self._eid), event)', 'VIOLATION'),
+    ('C01', 'KernelSched01', CORE, '(self._now + delay, priority, next(self._eid), event)', '(priority, self._now + delay, next(self._eid), event)', 'VIOLATION'),
+    ('C01', 'KernelSched01', CORE, 'priority: EventPriority = NORMAL,', 'priority: EventPriority = URGENT,', 'VIOLATION'),
+    ('C03', 'KernelRun03', CORE, 'if at <= self.now:', 'if at < self.now:', 'VIOLATION'),
+    (('C03', 'C01'), 'KernelRun03', CORE, '(at, URGENT, next(self._eid), until)', '(at, NORMAL, next(self._eid), until)', 'VIOLATION'),
+    ('C03', 'KernelRun03', CORE, '(at, URGENT, next(self._eid), until)', '(self._now + (at - self._now), URGENT, next(self._eid), until)', 'VIOLATION'),
+    ('C02', 'KernelEvent02', EVENTS, "has already been triggered')\n\n        self._ok = True", "has already been triggered')\n\n        self._ok = False", 'VIOLATION'),
+    ('C02', 'KernelEvent02', EVENTS, '        if self._value is not PENDING:\n            raise RuntimeError', '        if self._value is PENDING:\n            raise RuntimeError', 'VIOLATION'),
+    ('C01', 'KernelSched01', EVENTS, '                self._value = e.args[0] if len(e.args) else None\n                self.env.schedule(self)',
      '                self._value = e.args[0] if len(e.args) else None\n                self.env.schedule(self, URGENT)', 'VIOLATION'),
-    ('C01', 'KernelSched', CORE, "if not event._ok and not hasattr(event, '_defused'):", "if not event._ok or not hasattr(event, '_defused'):", 'VIOLATION'),
-    ('C01', 'KernelSched', CORE, 'if at <= self.now:', 'if self.now >= at:', 'OK'),
-    ('C01', 'KernelSched', EVENTS, 'if delay < 0:', 'if 0 > delay:', 'OK'),
+    ('C02', 'KernelEvent02', CORE, "if not event._ok and not hasattr(event, '_defused'):", "if not event._ok or not hasattr(event, '_defused'):", 'VIOLATION'),
+    ('C03', 'KernelRun03', CORE, 'if at <= self.now:', 'if self.now >= at:', 'OK'),
+    ('C01', 'KernelSched01', EVENTS, 'if delay < 0:', 'if 0 > delay:', 'OK'),
     # ---- C04: interrupts, process start
-    ('C04', 'KernelSched', EVENTS, 'env.schedule(self, URGENT)', 'env.schedule(self, NORMAL)', 'VIOLATION'),
-    ('C04', 'KernelSched', EVENTS, 'self.env.schedule(self, URGENT)', 'self.env.schedule(self)', 'VIOLATION'),
-    ('C04', 'KernelSched', EVENTS, '        if process.triggered:\n            raise RuntimeError', '        if not process.triggered:\n            raise RuntimeError', 'VIOLATION'),
-    ('C04', 'KernelSched', EVENTS, 'if process is self.env.active_process:', 'if process is not self.env.active_process:', 'VIOLATION'),
-    ('C04', 'KernelSched', EVENTS, '        self._defused = True\n\n        if process.triggered:', '        if process.triggered:', 'VIOLATION'),
-    ('C04', 'KernelSched', EVENTS, '        self._ok = False\n        self._defused = True', '        self._ok = True\n        self._defused = True', 'VIOLATION'),
-    ('C04', 'KernelSched', EVENTS, '        Interruption(self, cause)', '        Interruption(self, None)', 'VIOLATION'),
+    (('C04', 'C01'), 'KernelProc04', EVENTS, 'env.schedule(self, URGENT)', 'env.schedule(self, NORMAL)', 'VIOLATION'),
+    (('C04', 'C01'), 'KernelProc04', EVENTS, 'self.env.schedule(self, URGENT)', 'self.env.schedule(self)', 'VIOLATION'),
+    ('C04', 'KernelProc04', EVENTS, '        if process.triggered:\n            raise RuntimeError', '        if not process.triggered:\n            raise RuntimeError', 'VIOLATION'),
+    ('C04', 'KernelProc04', EVENTS, 'if process is self.env.active_process:', 'if process is not self.env.active_process:', 'VIOLATION'),
+    ('C04', 'KernelProc04', EVENTS, '        self._defused = True\n\n        if process.triggered:', '        if process.triggered:', 'VIOLATION'),
+    ('C04', 'KernelProc04', EVENTS, '        self._ok = False\n        self._defused = True', '        self._ok = True\n        self._defused = True', 'VIOLATION'),
+    ('C04', 'KernelProc04', EVENTS, '        Interruption(self, cause)', '        Interruption(self, None)', 'VIOLATION'),
 ]
 
 M = [  # (property, generated file stem, source file, old, new, expected: 'VIOLATION' | 'OK')
@@ -170,7 +174,9 @@ M = [  # (property, generated file stem, source file, old, new, expected: 'VIOLA
     ('C14', 'Sched', 'onl/scheduler/virtual_clock.py', 'if self.vc[class_id] == 0:', 'if self.vc[class_id] != 0:', 'VIOLATION'),
     ('C14', 'Sched', 'onl/scheduler/virtual_clock.py', 'self.aux_vc[class_id] = max(now, self.aux_vc[class_id])', 'self.aux_vc[class_id] = min(now, self.aux_vc[class_id])', 'VIOLATION'),
     ('C14', 'Sched', 'onl/scheduler/virtual_clock.py', 'self.vticks[class_id] * packet.size * 8.0', 'self.vticks[class_id] * packet.size * 8.5', 'VIOLATION'),
-    ('C14', 'Sched', 'onl/scheduler/base.py', 'yield self.env.timeout(packet.size * 8.0 / self.rate)', 'yield self.env.timeout(packet.size * 8.0 / self.rate / 2)', 'VIOLATION'),
+    ('C12', 'SchedTx', 'onl/scheduler/base.py', 'yield self.env.timeout(packet.size * 8.0 / self.rate)', 'yield self.env.timeout(packet.size * 8.0 / self.rate / 2)', 'VIOLATION'),
+    ('C12', 'SchedTx', 'onl/scheduler/base.py', 'yield self.env.timeout(packet.size * 8.0 / self.rate)', 'yield self.env.timeout(packet.size * 8.5 / self.rate)', 'VIOLATION'),
+    ('C12', 'SchedTx', 'onl/scheduler/base.py', 'yield self.env.timeout(packet.size * 8.0 / self.rate)', 'yield self.env.timeout(8 * packet.size / self.rate)', 'OK'),
     ('C15', 'Drr', 'onl/scheduler/drr.py', 'MIN_QUANTUM = 1500', 'MIN_QUANTUM = 1000', 'VIOLATION'),
     ('C15', 'Drr', 'onl/scheduler/drr.py', 'self.MIN_QUANTUM * weight / min_weight', 'self.MIN_QUANTUM * weight', 'VIOLATION'),
     ('C15', 'Drr', 'onl/scheduler/drr.py', 'if count > 0:', 'if count >= 0:', 'VIOLATION'),
@@ -192,35 +198,122 @@ def run(cmd, env, timeout, cwd=HERE):
         return 124, 'TIMEOUT'
 
 
+def owners_of(m):
+    return (m[0],) if isinstance(m[0], str) else tuple(m[0])
+
+
+# --cross: the entries (source file, old, new) for which all 20 checks are run, with the checks that may alarm besides the owners
+# and why.  The kernel checks C01-C07 replay mixed script families against one kernel model, so a behavioural change in the kernel
+# also shows in the correspondence of the kernel checks whose scripts exercise it (`py2lean/SCOPE.md`, "what still cross-alarms").
+CROSS = {
+    # -- only the owners alarm
+    (EVENTS, 'return len(events) == count', 'return len(events) <= count'): (),
+    (EVENTS, 'return count > 0 or len(events) == 0', 'return count > 0'): (),
+    (CONT, 'if self._capacity - self._level >= event.amount:', 'if self._capacity - self._level > event.amount:'): (),
+    (CONT, 'if self._level >= event.amount:', 'if self._level > event.amount:'): (),
+    (RES, 'if len(self._users) < self.capacity:', 'if len(self._users) <= self.capacity:'): (),
+    (RES, 'if preempt.key > event.key:', 'if preempt.key >= event.key:'): (),
+    (BASE, '        if not self.triggered:\n            self.resource.get_queue.remove(self)', '        if self.triggered:\n            self.resource.get_queue.remove(self)'): (),
+    ('onl/netdev/wire.py', 'if queued_time < delay:', 'if queued_time <= delay:'): (),
+    ('onl/netdev/token_bucket.py', 'if packet.size > self.current_bucket:', 'if packet.size >= self.current_bucket:'): (),
+    ('onl/packet/tcp_sink.py', 'flow_id=packet.flow_id + 10000', 'flow_id=packet.flow_id + 1000'): (),
+    # -- C01 replays split runs too and its text names the run-until stop: its correspondence sees the changed refusal
+    (CORE, 'if at <= self.now:', 'if at < self.now:'): ('C01',),
+    # -- the end of a process becomes urgent (the class is C01's alone: C02's file does not translate the priority argument): every
+    #    kernel check whose scripts let a process end in the same instant as another
+    #    occurrence replays a different order (C04: its direct oracle fails too - an interrupt is overtaken; C03: `step()` plans count
+    #    the reordered occurrences)
+    (EVENTS, '                self._value = e.args[0] if len(e.args) else None\n                self.env.schedule(self)',
+     '                self._value = e.args[0] if len(e.args) else None\n                self.env.schedule(self, URGENT)'): ('C02', 'C03', 'C04', 'C05', 'C06', 'C07', 'C20'),
+    # -- interrupting anybody but oneself now raises: everything built on interrupts breaks for real (Timer.stop / restart: C19;
+    #    preemption: C06, direct oracles fail) or is replayed differently (C01, C02, C05)
+    (EVENTS, 'if process is self.env.active_process:', 'if process is not self.env.active_process:'): ('C01', 'C02', 'C03', 'C05', 'C06', 'C19', 'C20'),
+    # -- the transmission time is part of every scheduler trace: C13 and C15 apply C12's service-time oracle to SP / RR / WRR / DRR,
+    #    C14's replay compares the clock of WFQ / VirtualClock bit for bit
+    ('onl/scheduler/base.py', 'yield self.env.timeout(packet.size * 8.0 / self.rate)', 'yield self.env.timeout(packet.size * 8.5 / self.rate)'): ('C13', 'C14', 'C15'),
+    # -- a DRR class with an empty queue is visited: the multi-queue replay of C12 (which covers DRR) disagrees
+    ('onl/scheduler/drr.py', 'if count > 0:', 'if count >= 0:'): ('C12',),
+}
+
+
+def apply_mutant(mut, m):
+    _, stem, rel, old, new, want = m[:6]
+    occ = m[6] if len(m) > 6 else 0
+    src = open(os.path.join(REPO, rel)).read()
+    if src.count(old) < 1:
+        return False
+    i = src.rindex(old) if (occ == -1 or (stem == 'Drr' and 'self.deficit[class_id] -= packet.size' in old)) else src.index(old)
+    open(os.path.join(mut, rel), 'w').write(src[:i] + new + src[i + len(old):])
+    return True
+
+
+def main_cross(scratch, mut, jobs):
+    sys.path.insert(0, os.path.join(HERE, 'tools'))
+    import crossrun
+    bad, n = 0, 0
+    for m in M:
+        key = (m[2], m[3], m[4])
+        if key not in CROSS or m[5] != 'VIOLATION':
+            continue
+        if '--match' in sys.argv and sys.argv[sys.argv.index('--match') + 1] not in m[3]:
+            continue
+        n += 1
+        also = set(CROSS[key])
+        own = set(owners_of(m))
+        if not apply_mutant(mut, m):
+            print(f'SKIP {m[2]}: {m[3]!r} not in the source')
+            bad += 1
+            continue
+        res = crossrun.cross(mut, crossrun.ALL, scratch, jobs)
+        alarmed = {p for p, r in res.items() if r[0] != 'OK'}
+        silent_owner = own - alarmed
+        false_alarm = alarmed - own - also
+        ok = not silent_owner and not false_alarm
+        bad += not ok
+        print(f'{m[2]}: {m[3][:50]!r} -> {m[4][:50]!r}: owners {sorted(own)}; alarmed {sorted(alarmed)}'
+              + (f'; OWNER SILENT {sorted(silent_owner)}' if silent_owner else '') + (f'; FALSE ALARM {sorted(false_alarm)}' if false_alarm else '')
+              + (f'; documented {sorted(alarmed & also)}' if alarmed & also else '') + ('' if ok else '   <<<< UNEXPECTED'))
+        for p in sorted(alarmed - own):
+            print(f'      {p}: {res[p][0]} {res[p][1][:200]}')
+        sys.stdout.flush()
+        shutil.copy(os.path.join(REPO, m[2]), os.path.join(mut, m[2]))
+        crossrun.restore_generated()
+    print(f'cross-run entries: {n}; unexpected outcomes: {bad}')
+    sys.exit(1 if bad else 0)
+
+
 def main():
     args = [a for a in sys.argv[1:] if not a.startswith('--')]
     build_only = '--build-only' in sys.argv
     scratch = sys.argv[sys.argv.index('--scratch') + 1] if '--scratch' in sys.argv else '/tmp/bridge_mut'
-    args = [a for a in args if a != scratch]
+    jobs = int(sys.argv[sys.argv.index('--jobs') + 1]) if '--jobs' in sys.argv else 6
+    args = [a for a in args if a != scratch and not a.isdigit() and a != (sys.argv[sys.argv.index('--match') + 1] if '--match' in sys.argv else None)]
     mut = os.path.join(scratch, 'repo')
     if os.path.exists(mut):
         shutil.rmtree(mut)
     shutil.copytree(REPO, mut, ignore=shutil.ignore_patterns('.git'))
     env = dict(os.environ, ONL_REPO=mut, VERIF_EVIDENCE_DIR=os.path.join(scratch, 'ev'), VERIF_REPLAY_DIR=os.path.join(scratch, 'replays'))
+    if '--cross' in sys.argv:
+        return main_cross(scratch, mut, jobs)
+    sys.path.insert(0, HERE)
+    from py2lean import scope
     bad = 0
-    props = sorted({m[0] for m in M if not args or m[0] in args})
+    props = sorted({p for m in M for p in owners_of(m) if not args or p in args})
     for prop in props:
-        for m in [m for m in M if m[0] == prop]:
+        for m in [m for m in M if prop in owners_of(m)]:
             _, stem, rel, old, new, want = m[:6]
-            occ = m[6] if len(m) > 6 else 0
-            src = open(os.path.join(REPO, rel)).read()
-            if src.count(old) < 1:
+            if not apply_mutant(mut, m):
                 print(f'SKIP {prop} {rel}: {old!r} not in the source')
                 bad += 1
                 continue
-            i = src.rindex(old) if (occ == -1 or (prop == 'C15' and 'self.deficit[class_id] -= packet.size' in old)) else src.index(old)
-            open(os.path.join(mut, rel), 'w').write(src[:i] + new + src[i + len(old):])
             if build_only:
                 penv = dict(env, PYTHONPATH=HERE + ':' + mut)
-                only = ('KernelRes', 'KernelCond', 'KernelSched') if stem.startswith('Kernel') else (stem,)
-                target = 'OnlVerif.Props.KernelGen' if stem.startswith('Kernel') else f'OnlVerif.Props.{prop}'
-                rc0, out0 = run(['/venv/bin/python', '-c', f'from py2lean import translate\ntranslate.regenerate_all(only={only!r})'], penv, 300)
-                rc1, out1 = run(['lake', 'build', target], dict(env), 1800, os.path.join(HERE, 'lean')) if rc0 == 0 else (1, '')
+                only = tuple(scope.owned_by(prop)) + (('KernelObj',) if prop in scope.BRIDGE_MODULES else ())
+                targets = [f'OnlVerif.Props.{prop}'] + list(scope.BRIDGE_MODULES.get(prop, ()))
+                gen = ('from py2lean import translate, route\n' + ('route.regenerate()\n' if 'Route' in only else '')
+                       + f'translate.regenerate_all(only={tuple(s_ for s_ in only if s_ != "Route")!r})')
+                rc0, out0 = run(['/venv/bin/python', '-c', gen], penv, 300)
+                rc1, out1 = run(['lake', 'build'] + targets, dict(env), 1800, os.path.join(HERE, 'lean')) if rc0 == 0 else (1, '')
                 rc1 = rc1 if rc0 == 0 else 1
                 got = 'OK' if (rc0 == 0 and rc1 == 0) else 'VIOLATION'
                 detail = (out0.strip().splitlines() or [''])[-1][:200] if rc0 else ' | '.join(l for l in out1.splitlines() if l.startswith('error:'))[:200]
@@ -236,11 +329,12 @@ def main():
             flag = '' if got == want else '   <<<< UNEXPECTED'
             bad += got != want
             print(f'{prop} {rel}: {old[:60]!r} -> {new[:60]!r}: {got} (expected {want}){flag}\n      {detail}')
+            sys.stdout.flush()
             shutil.copy(os.path.join(REPO, rel), os.path.join(mut, rel))
         # leave the generated files as translated from the true source
         if build_only:
-            run(['/venv/bin/python', '-c', 'from py2lean import translate\ntranslate.regenerate_all()'],
-                dict(os.environ, PYTHONPATH=HERE + ':' + REPO), 300)
+            run(['/venv/bin/python', '-c', 'from py2lean import translate, route\ntranslate.regenerate_all()\nroute.regenerate()'],
+                dict(os.environ, PYTHONPATH=HERE + ':' + REPO, ONL_REPO=REPO), 300)
         else:
             rc, out = run(['./check', prop, '--tier', 'quick'], dict(os.environ, VERIF_EVIDENCE_DIR=os.path.join(scratch, 'ev')), 900)
             print(f'{prop} unmodified library: ' + ([l for l in out.splitlines() if l.startswith(('OK', 'VIOLATION'))] or [out[-200:]])[0])
